@@ -199,6 +199,10 @@ func (s *session[H]) doRequest(
 	}
 
 	h, err := s.processResponses(r)
+	if err == nil && h[0].Height() != req.GetOrigin() {
+		// every chunk is verified against `from` non-adjacently, so nothing else binds it to the requested heights
+		err = fmt.Errorf("peer responded with headers from %d, requested from %d", h[0].Height(), req.GetOrigin())
+	}
 	if err != nil {
 		span.SetStatus(codes.Error, err.Error())
 		logFn := log.Errorw
